@@ -9,7 +9,8 @@
     cand = what precedes the element named by [before] in E1 (all of E1 if there is none). *)
 From Coq Require Import List ZArith String Bool Permutation Sorted.
 From Thunder Require Import Lib.Json Pagination.Model Pagination.ProofsSlice Pagination.ProofsSort
-  Pagination.ProofsWalk Pagination.ProofsPage Pagination.ProofsMain.
+  Pagination.ProofsWalk Pagination.ProofsPage Pagination.ProofsFilter Pagination.Base64
+  Pagination.ProofsMain.
 Import ListNotations.
 Open Scope list_scope.
 
@@ -173,3 +174,149 @@ Theorem has_next_page_iff_orig_refuted :
        (exists p e s, E1 = p ++ e :: s /\ named (a_before a) e /\ s <> [])).
 Proof. exact f10_refutes. Qed.
 Print Assumptions has_next_page_iff_orig_refuted.
+
+(** * The order: requested, stable *)
+
+(** With a registered sort field the paginated list is a permutation of the filtered list, sorted in the
+    requested order (no element is followed by one that is strictly smaller in that order), and stable
+    (elements with equal sort values keep the order of the resolver's list). *)
+Theorem paginated_list_is_sorted_and_stable :
+  forall cfg l a f, a_sortby a = Some f -> sort_ok cfg a ->
+  Permutation (base_list cfg l a) (apply_text_filter cfg l a) /\
+  sorted_by f (a_desc a) (base_list cfg l a) /\
+  (forall z, filter (same_key f (a_desc a) z) (base_list cfg l a) =
+             filter (same_key f (a_desc a) z) (apply_text_filter cfg l a)).
+Proof. exact base_list_sorted_stable. Qed.
+Print Assumptions paginated_list_is_sorted_and_stable.
+
+(** Those two properties determine the list: any sorted, stable rearrangement of the filtered list is
+    the model's - so it is irrelevant that Go's sort.SliceStable is not an insertion sort. *)
+Theorem stable_sort_is_unique :
+  forall cfg l a f l', a_sortby a = Some f -> sort_ok cfg a ->
+  sorted_by f (a_desc a) l' ->
+  (forall z, filter (same_key f (a_desc a) z) l' =
+             filter (same_key f (a_desc a) z) (apply_text_filter cfg l a)) ->
+  l' = base_list cfg l a.
+Proof. exact base_list_unique. Qed.
+Print Assumptions stable_sort_is_unique.
+
+Theorem without_sort_field_order_is_kept :
+  forall cfg l a, a_sortby a = None -> base_list cfg l a = apply_text_filter cfg l a.
+Proof. exact base_list_unsorted. Qed.
+Print Assumptions without_sort_field_order_is_kept.
+
+(** integer sort values compare by <, string sort values bytewise after lower-casing; descending swaps *)
+Theorem integer_sort_values_compare_as_integers :
+  forall f desc x y zx zy,
+  lookup_def (SInt 0) f (n_sorts x) = SInt zx -> lookup_def (SInt 0) f (n_sorts y) = SInt zy ->
+  node_less f desc x y = if desc then Z.ltb zy zx else Z.ltb zx zy.
+Proof. exact node_less_int. Qed.
+Print Assumptions integer_sort_values_compare_as_integers.
+
+Theorem string_sort_values_compare_lowercased :
+  forall f desc x y sx sy,
+  lookup_def (SInt 0) f (n_sorts x) = SStr sx -> lookup_def (SInt 0) f (n_sorts y) = SStr sy ->
+  node_less f desc x y = if desc then str_ltb (lower sy) (lower sx) else str_ltb (lower sx) (lower sy).
+Proof. exact node_less_str. Qed.
+Print Assumptions string_sort_values_compare_lowercased.
+
+(** * The text filter *)
+
+(** An element passes iff there is no (or an empty) filter text, or some registered filter field that is
+    selected by filterTextFields (all of them when the argument is absent) matches. *)
+Theorem element_passes_filter_iff :
+  forall cfg l a n,
+  In n (apply_text_filter cfg l a) <->
+  In n l /\
+  (a_ftext a = None \/ a_ftext a = Some EmptyString \/
+   exists t f, a_ftext a = Some t /\
+     In f (cfg_ff cfg) /\ (forall fs, a_ffields a = Some fs -> In f fs) /\
+     default_match (lookup_def EmptyString f (n_texts n)) (tokens t) = true).
+Proof.
+  exact (fun cfg l a n =>
+           iff_trans (apply_text_filter_spec cfg l a n)
+                     (and_iff_compat_l (In n l) (node_filter_spec cfg a n))).
+Qed.
+Print Assumptions element_passes_filter_iff.
+
+(** The default match: no token at all, or some non-empty token occurs in the text, ignoring case. *)
+Theorem default_match_is_case_insensitive_substring :
+  forall text toks,
+  default_match text toks = true <->
+  toks = [] \/
+  exists t pre post, In t toks /\ t <> EmptyString /\
+                     lower text = String.append pre (String.append (lower t) post).
+Proof. exact default_match_spec. Qed.
+Print Assumptions default_match_is_case_insensitive_substring.
+
+(** The default tokeniser on the documented sub-language: blank-separated words and quoted phrases
+    give their contents, in order. *)
+Theorem tokens_of_words_and_phrases :
+  forall items, forallb item_ok items = true -> tokens (render_sep items) = map content items.
+Proof. exact tokens_render_sep. Qed.
+Print Assumptions tokens_of_words_and_phrases.
+
+(** * The cursor encoding of the code *)
+
+Theorem base64_is_injective : injective base64.
+Proof. exact base64_injective. Qed.
+Print Assumptions base64_is_injective.
+
+(** hence the walks partition the list for the encoding the code uses *)
+Theorem walk_forward_partition_base64 :
+  forall cfg l a k, NoDup (map n_key l) -> sort_ok cfg a -> (0 < k)%Z ->
+  exists pages,
+    walk_forward base64 cfg l a k = (map inl pages, true) /\
+    pages_nodes pages = base_list cfg l a /\
+    NoDup (map n_key (pages_nodes pages)) /\
+    Forall (fun c => (Z.of_nat (List.length (c_edges c)) <= k)%Z /\
+                     c_total c = total_count cfg l a) pages.
+Proof. exact (ProofsMain.walk_forward_partition base64 base64_injective). Qed.
+Print Assumptions walk_forward_partition_base64.
+
+(** * Non-vacuity: a list, arguments and walks that meet the hypotheses *)
+
+Definition ex_cfg : config := mk_cfg ["t0"%string] ["n0"%string; "s0"%string].
+Definition ex_node (k t : string) (n : Z) (s : string) : node :=
+  mk_node k (JStr k) [("t0"%string, t)] [("n0"%string, SInt n); ("s0"%string, SStr s)].
+Definition ex_list : list node :=
+  [ex_node "5" "can" 3 "b"; ex_node "2" "Man" 1 "B"; ex_node "9" "cannot" 2 "a";
+   ex_node "4" "zed" 2 "C"; ex_node "7" "so can" 1 "c"; ex_node "1" "AN" 0 ""]%string.
+Definition ex_args : pargs :=
+  mk_args None None None None (Some "an ""so can"""%string) None (Some "n0"%string) true.
+
+Example ex_hypotheses :
+  NoDup (map n_key ex_list) /\ sort_ok ex_cfg ex_args /\
+  map n_key (base_list ex_cfg ex_list ex_args) = ["5"; "9"; "2"; "7"; "1"]%string.
+Proof.
+  split; [|split]; [|reflexivity|vm_compute; reflexivity].
+  vm_compute. repeat constructor; simpl; intuition discriminate.
+Qed.
+
+Example ex_walk_forward :
+  let '(pages, fin) := walk_forward base64 ex_cfg ex_list ex_args 2 in
+  fin = true /\
+  map (fun r => match r with inl c => (map (fun e => n_key (e_node e)) (c_edges c), c_next c, c_total c)
+                           | inr _ => ([], false, 0%Z) end) pages =
+  [(["5"; "9"], true, 5%Z); (["2"; "7"], true, 5%Z); (["1"], false, 5%Z)]%string.
+Proof. vm_compute. split; reflexivity. Qed.
+
+Example ex_walk_backward :
+  let '(pages, fin) := walk_backward base64 ex_cfg ex_list ex_args 2 in
+  fin = true /\
+  map (fun r => match r with inl c => (map (fun e => n_key (e_node e)) (c_edges c), c_prev c)
+                           | inr _ => ([], false) end) pages =
+  [(["7"; "1"], true); (["9"; "2"], true); (["5"], false)]%string.
+Proof. vm_compute. split; reflexivity. Qed.
+
+(** a page with both cursors: after = cursor(5), before = cursor(1) (the last element): nothing lies
+    beyond [before], hasNextPage is false (the repaired behaviour), hasPrevPage is false *)
+Example ex_after_before :
+  match get_connection base64 ex_cfg ex_list
+          (mk_args None None (Some (base64 "5")) (Some (base64 "1")) (Some "an ""so can"""%string)
+                   None (Some "n0"%string) true) with
+  | inl c => (map (fun e => n_key (e_node e)) (c_edges c), c_next c, c_prev c)
+             = (["9"; "2"; "7"]%string, false, false)
+  | inr _ => False
+  end.
+Proof. vm_compute. reflexivity. Qed.
